@@ -1,6 +1,8 @@
 mod bulk;
+mod conc;
 mod gen;
 mod guards;
+mod sched;
 mod seq;
 mod types;
 
@@ -37,11 +39,13 @@ fn main() {
     }
     // injected panics are expected: keep stderr quiet
     std::panic::set_hook(Box::new(|_| {}));
+    sched::install();
     match args[1].as_str() {
         "seq" => cmd_seq(&args),
         "seq-replay" => cmd_seq_replay(&args),
         "guards" => cmd_guards(),
         "bulk" => cmd_bulk(&args),
+        "conc" => cmd_conc(&args),
         other => {
             eprintln!("unknown command {}", other);
             std::process::exit(2);
@@ -170,5 +174,74 @@ fn cmd_bulk(args: &[String]) {
     println!(
         "{{\"docs\":{},\"docs_with_repeated_keys\":{},\"roundtrips\":{},\"par_runs\":{},\"failures\":{},\"samples\":{}}}",
         r.docs, r.docs_with_dups, r.roundtrips, r.par_runs, json_list(&r.failures), json_list(&r.samples)
+    );
+}
+
+/// conc --seed S --cases N [--big 1] [--budget B] : scheduled concurrent programs (C01/C08/C11/C12/C05)
+fn cmd_conc(args: &[String]) {
+    let seed: u64 = arg(args, "--seed").and_then(|s| s.parse().ok()).unwrap_or(1);
+    let cases: usize = arg(args, "--cases").and_then(|s| s.parse().ok()).unwrap_or(100);
+    let big = arg(args, "--big").map(|s| s == "1").unwrap_or(false);
+    let budget: usize = arg(args, "--budget").and_then(|s| s.parse().ok()).unwrap_or(20000);
+    let only: Option<u64> = arg(args, "--case-seed").and_then(|s| s.parse().ok());
+    let verbose = arg(args, "--verbose").is_some();
+    types::ledger_reset(false);
+    let mut failures: Vec<String> = vec![];
+    let (mut steps, mut ops, mut keys_checked, mut distinct) = (0usize, 0usize, 0usize, std::collections::HashSet::new());
+    let mut by_class: std::collections::BTreeMap<String, usize> = Default::default();
+    let mut sites: std::collections::BTreeSet<String> = Default::default();
+    let mut samples = vec![];
+    let (mut contended, mut with_resize, mut with_tree) = (0usize, 0usize, 0usize);
+    for i in 0..cases {
+        let cseed = only.unwrap_or(seed.wrapping_mul(0x9E3779B97F4A7C15).wrapping_add(i as u64));
+        let case = conc::gen_conc(i, cseed, big);
+        let r = conc::run_conc(&case, false, budget);
+        let v = conc::judge(&case, &r);
+        steps += r.outcome.steps;
+        ops += r.calls.len();
+        keys_checked += v.keys_checked;
+        *by_class.entry(case.hash_class.to_string()).or_default() += 1;
+        for e in &r.trace {
+            sites.insert(format!("{}:{}", e.file.rsplit('/').next().unwrap_or(""), e.line));
+        }
+        let progs: Vec<String> = case.programs.iter().map(|p| p.iter().map(|o| o.text()).collect::<Vec<_>>().join(", ")).collect();
+        let text = format!("cap={} prefill={:?} threads=[{}]", case.cap, case.prefill, progs.join(" || "));
+        // non-trivial: at least two threads' steps are interleaved
+        let switches = r.outcome.schedule.windows(2).filter(|w| w[0] != w[1]).count();
+        if switches >= 2 {
+            distinct.insert(format!("{}|{:?}", text, r.outcome.schedule));
+        }
+        if r.trace.iter().any(|e| e.kind == flurry::verif::Kind::BeforeLock) && switches >= 2 {
+            contended += 1;
+        }
+        if r.trace.iter().any(|e| e.what == "transfer_index") {
+            with_resize += 1;
+        }
+        if r.final_snap.contains(":T[") {
+            with_tree += 1;
+        }
+        if samples.len() < 2 && switches >= 4 {
+            samples.push(format!("{} schedule={:?}", text, &r.outcome.schedule[..r.outcome.schedule.len().min(40)]));
+        }
+        for f in v.failures {
+            failures.push(format!("{} [case-seed {}] {}", f, cseed, text));
+        }
+        if verbose {
+            for c in &r.calls {
+                println!("t{} [{}..{}] {} -> {}", c.tid, c.inv, c.resp, c.op.text(), c.result);
+            }
+            println!("final: {:?}", r.final_contents);
+            println!("schedule: {:?}", r.outcome.schedule);
+        }
+        if only.is_some() {
+            break;
+        }
+    }
+    let fmt_map = |m: &std::collections::BTreeMap<String, usize>| {
+        format!("{{{}}}", m.iter().map(|(k, v)| format!("{}:{}", json_str(k), v)).collect::<Vec<_>>().join(","))
+    };
+    println!(
+        "{{\"cases\":{},\"steps\":{},\"ops\":{},\"keys_checked\":{},\"distinct_nontrivial\":{},\"failures\":{},\"by_hash_class\":{},\"hook_sites\":{},\"runs_with_lock_contention\":{},\"runs_with_resize\":{},\"runs_ending_with_tree_bin\":{},\"samples\":{}}}",
+        cases, steps, ops, keys_checked, distinct.len(), json_list(&failures), fmt_map(&by_class), sites.len(), contended, with_resize, with_tree, json_list(&samples)
     );
 }
